@@ -40,6 +40,7 @@ func vttRead(n int, c vttCase) vttEvent {
 	ev := vttEvent{N: n, Dir: "read", G: c.G, D: c.D}
 	ev.Post.Norm()
 	raw := vttx.Concretise(c.D, p)
+	dumpDoc("vtt", n, raw)
 	ev.Raw = string(raw)
 	var s *astisub.Subtitles
 	var err error
